@@ -12,7 +12,9 @@ type HTMLFormatter struct {
 	Writer io.Writer
 }
 
-func (f *HTMLFormatter) Write(result interface{}) error {
+func (f *HTMLFormatter) Write(result interface{}) (err error) {
+	defer recoverWriteError(&err)
+
 	pageTitle := "gedcom"
 
 	// Nil should be treated as a blank document.
@@ -47,7 +49,7 @@ func (f *HTMLFormatter) Write(result interface{}) error {
 	}
 
 	f.Writer.Write([]byte("<pre>"))
-	err := fallbackFormatter.Write(result)
+	err = fallbackFormatter.Write(result)
 	f.Writer.Write([]byte("\n</pre>"))
 
 	return err
